@@ -1,37 +1,8 @@
 (* Entry points of the correspondence check: one function per harness command, from the parsed
    command to the answer string.  Evaluated by the extracted `modelrun` and by vm_compute. *)
-From H264 Require Import Base.Prelude Base.Bits Model.Show Model.BitReader Model.RefNal Model.Rbsp Model.Nal Model.AnnexB Model.Accum
+From H264 Require Import Base.Prelude Base.Bits Model.Show Model.BitReader Model.RefNal Model.Rbsp Model.Source Model.Nal Model.AnnexB Model.Accum
      Model.Parser Model.Sps Model.SpsDerived Model.ShowSps Model.Context Model.Pps Model.ShowPps Model.Slice Model.ShowSlice Model.SeiTables Model.Sei Model.ShowSei Model.Avcc.
 Local Open Scope string_scope.
-
-Inductive source := SrcRaw (b : list byte) | SrcNal (c : bool) (chunks : list (list byte)).
-
-Definition rdr_of_source (s : source) : rdr :=
-  match s with
-  | SrcRaw b => rdr_of_slice b
-  | SrcNal c [] => rdr_of_nal [] [] c
-  | SrcNal c (h :: t) => rdr_of_nal h t c
-  end.
-
-Definition tail_of_term (t : term) : tailk :=
-  match t with
-  | TermErr WouldBlock => TWouldBlock
-  | TermErr _ => TInvalid
-  | _ => TEof
-  end.
-
-(* the bit source a BitReader sees on top of a ByteReader: everything delivered before the first error *)
-Definition src_of_br (r : br) : src :=
-  match br_drain r with
-  | (bytes, t, _) => mk_src (bits_of_bytes bytes) (tail_of_term t)
-  end.
-
-(* BitReader::new(&bytes[..]) for raw; nal.rbsp_bits() for a NAL *)
-Definition bitsrc_of_source (s : source) : src :=
-  match s with
-  | SrcRaw b => mk_src (bits_of_bytes b) TEof
-  | SrcNal _ _ => src_of_br (br_new (rdr_of_source s) 1 128)
-  end.
 
 Definition show_biterr (e : biterr) : string :=
   match e with
@@ -237,7 +208,6 @@ Definition cmd_sps (s : source) : string :=
 (* ---- contexts: "S<nal>" / "P<nal>" items parsed in order, successes stored ---- *)
 Inductive ctx_item := CtxSps (nal : list byte) | CtxPps (nal : list byte).
 
-Definition nal_bitsrc (nal : list byte) : src := bitsrc_of_source (SrcNal true [nal]).
 
 Definition ctx_step (c : context) (it : ctx_item) : context :=
   match it with
@@ -332,32 +302,6 @@ Definition show_items (x : out avccerr (list item)) : string :=
   | OK l => "[" ++ join "," (map (fun i => match i with ItOk b => hex b | ItErr d => "E:" ++ d end) l) ++ "]"
   | _ => "[PANIC]"
   end.
-
-(* create_context: the first error item / parse error aborts *)
-Fixpoint ctx_of_sps (l : list item) (c : context) : out avccerr context :=
-  match l with
-  | [] => OK c
-  | ItErr d :: _ => ERR (AvParamSet d)
-  | ItOk [] :: _ => PANIC "RefNal must be non-empty"
-  | ItOk nal :: r => match sps_from_bits (nal_bitsrc nal) with
-                     | OK s => ctx_of_sps r (put_seq_param_set c s)
-                     | ERR e => ERR (AvSps e) | PANIC w => PANIC w | FUEL => FUEL
-                     end
-  end.
-Fixpoint ctx_of_pps (l : list item) (c : context) : out avccerr context :=
-  match l with
-  | [] => OK c
-  | ItErr d :: _ => ERR (AvParamSet d)
-  | ItOk [] :: _ => PANIC "RefNal must be non-empty"
-  | ItOk nal :: r => match pps_from_bits c (nal_bitsrc nal) with
-                     | OK p => ctx_of_pps r (put_pic_param_set c p)
-                     | ERR e => ERR (AvPps e) | PANIC w => PANIC w | FUEL => FUEL
-                     end
-  end.
-Definition create_context (data : list byte) : out avccerr context :=
-  obind (sequence_parameter_sets data) (fun ss =>
-  obind (ctx_of_sps ss ctx_empty) (fun c =>
-  obind (picture_parameter_sets data) (fun ps => ctx_of_pps ps c))).
 
 Definition byte_at (data : list byte) (i : nat) : N := nth i data 0%N.
 
